@@ -193,21 +193,21 @@ Qed.
 Lemma encode_spec tl p :
   NoDup (keys (p_str p)) ->
   encode tl p =
-  if L_max <? u32 (info_size (p_int p) (p_str p)) then Err e_toolarge
+  if L_max <? info_size (p_int p) (p_str p) then Err e_toolarge
   else Ok (be 4 tl ++ be 4 (u32 (c_magic + p_flags p)) ++ be 4 (to_unsigned 32 (p_seq p))
            ++ be 2 (u16 (info_size (p_int p) (p_str p) / 4)) ++ [p_pid p; 0]
            ++ enc_secs (body (p_int p) (p_str p))
            ++ repeat 0 (N.to_nat (pad_of (p_int p) (p_str p)))).
 Proof. intros H. unfold encode. rewrite (write_kv_info_spec _ _ H). reflexivity. Qed.
 
-(* Encode fails exactly when the (32-bit) header-info size exceeds MaxHeaderSize; it never panics *)
+(* Encode fails exactly when the header-info size exceeds MaxHeaderSize; it never panics *)
 Lemma enc_fail_iff tl p :
   NoDup (keys (p_str p)) ->
-  ((exists e, encode tl p = Err e) <-> L_max < u32 (info_size (p_int p) (p_str p))) /\
-  ((exists b, encode tl p = Ok b) <-> u32 (info_size (p_int p) (p_str p)) <= L_max).
+  ((exists e, encode tl p = Err e) <-> L_max < info_size (p_int p) (p_str p)) /\
+  ((exists b, encode tl p = Ok b) <-> info_size (p_int p) (p_str p) <= L_max).
 Proof.
   intros H. rewrite (encode_spec tl p H).
-  destruct (N.ltb_spec L_max (u32 (info_size (p_int p) (p_str p)))) as [Hlt|Hge]; split; split.
+  destruct (N.ltb_spec L_max (info_size (p_int p) (p_str p))) as [Hlt|Hge]; split; split.
   - intros _. exact Hlt.
   - intros _. eexists. reflexivity.
   - intros [b Hb]. discriminate.
@@ -411,8 +411,7 @@ Proof.
   rewrite (encode_spec tl p Hnd) in H.
   set (im := p_int p) in *. set (sm := p_str p) in *.
   destruct (info_size_props im sm) as (Hsz & Hpad & Hmod).
-  assert (Hu : u32 (info_size im sm) = info_size im sm) by (apply N.mod_small; exact Hnw).
-  rewrite Hu in H. unfold L_max, L_meta in *.
+  unfold L_max, L_meta in *.
   destruct (N.ltb_spec 65536 (info_size im sm)) as [Hgt|Hle]; [discriminate|].
   apply (f_equal (fun r => match r with Ok x => x | _ => [] end)) in H. symmetry in H.
   change ([p_pid p; 0] ++ enc_secs (body im sm) ++ repeat 0 (N.to_nat (pad_of im sm)))
@@ -761,9 +760,8 @@ Lemma enc_ok_fits16 tl p b :
 Proof.
   intros Hnd Hnw H. rewrite (encode_spec tl p Hnd) in H.
   set (im := p_int p) in *. set (sm := p_str p) in *.
-  assert (Hu : u32 (info_size im sm) = info_size im sm) by (apply N.mod_small; exact Hnw).
-  rewrite Hu in H. unfold L_max in H.
-  destruct (N.ltb_spec 65536 (info_size im sm)) as [Hgt|Hle]; [discriminate|]. clear H Hu.
+  unfold L_max in H.
+  destruct (N.ltb_spec 65536 (info_size im sm)) as [Hgt|Hle]; [discriminate|]. clear H.
   destruct (info_size_props im sm) as (Hsz & _ & _). rewrite raw_split in Hsz.
   pose proof (filter_count sm Hnd) as Hfc.
   assert (Hkv : kv_size sm = 0 \/ 3 + kvs_size (filter not_gdpr sm) = kv_size sm).
@@ -793,85 +791,14 @@ Proof.
       unfold str_size in Hsz. change (len gdpr) with 22. lia.
 Qed.
 
-(* ---------- why [info_size < 2^32] is a hypothesis: Encode compares uint32(size) ---------- *)
-(* whenever the size exceeds the limit but its low 32 bits do not, Encode reports success for a
-   frame longer than 14 + 65536 bytes *)
-Lemma enc_wrap tl p :
-  NoDup (keys (p_str p)) ->
-  L_max < info_size (p_int p) (p_str p) -> info_size (p_int p) (p_str p) mod two32 <= L_max ->
-  exists b, encode tl p = Ok b /\ len b = L_meta + info_size (p_int p) (p_str p).
-Proof.
-  intros Hnd Hbig Hwrap. rewrite (encode_spec tl p Hnd). unfold u32.
-  destruct (N.ltb_spec L_max (info_size (p_int p) (p_str p) mod two32)) as [Hx|_]; [lia|].
-  eexists. split; [reflexivity|].
-  fold (info_bytes (p_pid p) (p_int p) (p_str p)).
-  rewrite !len_app, !be_len, info_bytes_len. unfold L_meta. lia.
-Qed.
-
-(* such parameters exist: 65536 int keys, each with a value of 65532 bytes: 2 + 3 + 65536 *
-   65536 bytes, padded to 2^32 + 8 *)
-Definition wrap_im : list (N * bytes) :=
-  map (fun k => (N.of_nat k, repeat 0 (N.to_nat 65532))) (seq 0 (N.to_nat 65536)).
-
-Lemma ikvs_size_const (v : bytes) l :
-  ikvs_size (map (fun k => (N.of_nat k, v)) l) = len l * (4 + len v).
-Proof.
-  induction l as [|k l IH]; [reflexivity|].
-  cbn [map]. rewrite ikvs_size_cons, IH, len_cons. cbn [snd]. unfold str_size. lia.
-Qed.
-
-Lemma wrap_im_size : info_size wrap_im [] = two32 + 8.
-Proof.
-  assert (Hraw : raw_info_size wrap_im [] = two32 + 5).
-  { rewrite raw_split. change (acl_size []) with 0. change (kv_size []) with 0.
-    unfold int_size, wrap_im.
-    destruct (N.to_nat 65536) as [|n] eqn:En; [lia|]. rewrite <- En. clear n En.
-    assert (E : ikvs_size (map (fun k => (N.of_nat k, repeat 0 (N.to_nat 65532))) (seq 0 (N.to_nat 65536)))
-                = two32).
-    { rewrite ikvs_size_const, len_repeat. unfold len. rewrite seq_length, !N2Nat.id. reflexivity. }
-    destruct (map _ (seq 0 (N.to_nat 65536))) as [|x r] eqn:Em.
-    - cbn in E. discriminate.
-    - rewrite E. reflexivity. }
-  unfold info_size. cbv zeta. rewrite Hraw. reflexivity.
-Qed.
-
-Lemma wrap_im_nodup : NoDup (keys wrap_im).
-Proof.
-  unfold keys, wrap_im. rewrite map_map. cbn [fst].
-  apply FinFun.Injective_map_NoDup; [|apply seq_NoDup].
-  intros a b H. lia.
-Qed.
-
-Lemma wrap_im_wf : Forall ikv_wf wrap_im.
-Proof.
-  unfold wrap_im. apply Forall_forall. intros kv Hin. apply in_map_iff in Hin.
-  destruct Hin as (k & <- & Hk). apply in_seq in Hk. split; cbn [fst snd].
-  - lia.
-  - apply Forall_forall. intros x Hx. apply repeat_spec in Hx. subst. unfold wfb. lia.
-Qed.
-
-(* the unconditional form of the size clause of the layout, and its refutation *)
+(* ---------- the size clause holds unconditionally (since the repair of /repo: Encode compared
+   uint32(size), so a header info of 4 GiB + r passed; it now compares the int) ---------- *)
 Definition enc_size_statement : Prop :=
   forall tl p b, NoDup (keys (p_str p)) -> params_wf p -> encode tl p = Ok b ->
                  info_size (p_int p) (p_str p) <= L_max.
 
-(* generic in the map, so that nothing ever unfolds the 4 GiB witness *)
-Lemma enc_size_refuted_by im :
-  NoDup (keys im) -> Forall ikv_wf im -> info_size im [] = two32 + 8 -> ~ enc_size_statement.
+Lemma enc_size_statement_holds : enc_size_statement.
 Proof.
-  intros _ Hiw Hs H.
-  set (p := {| p_flags := 0; p_seq := 0%Z; p_pid := 0; p_int := im; p_str := [] |}).
-  assert (Hnd : NoDup (keys (p_str p))) by constructor.
-  assert (Hwf : params_wf p).
-  { unfold params_wf, p. cbn [p_flags p_seq p_pid p_int p_str].
-    split; [lia|]. split; [unfold in_signed; cbn; lia|]. split; [lia|].
-    split; [exact Hiw|constructor]. }
-  destruct (enc_wrap 0 p Hnd) as (b & Hb & _); cbn [p_int p_str p]; rewrite ?Hs.
-  - unfold L_max, two32. lia.
-  - unfold L_max, two32. change ((4294967296 + 8) mod 4294967296) with 8. lia.
-  - specialize (H 0 p b Hnd Hwf Hb). cbn [p_int p_str p] in H. rewrite Hs in H.
-    unfold L_max, two32 in H. lia.
+  intros tl p b Hnd _ H. destruct (enc_fail_iff tl p Hnd) as [_ [Hok _]]. apply Hok. eexists. exact H.
 Qed.
 
-Lemma enc_size_statement_refuted : ~ enc_size_statement.
-Proof. exact (enc_size_refuted_by wrap_im wrap_im_nodup wrap_im_wf wrap_im_size). Qed.
